@@ -23,6 +23,14 @@
 #include <sys/wait.h>
 #include <pthread.h>
 
+#if defined(__has_feature)
+#if __has_feature(address_sanitizer) && !defined(__SANITIZE_ADDRESS__)
+#define __SANITIZE_ADDRESS__ 1
+#endif
+#if __has_feature(thread_sanitizer) && !defined(__SANITIZE_THREAD__)
+#define __SANITIZE_THREAD__ 1
+#endif
+#endif
 #if defined(__SANITIZE_ADDRESS__)
 #define VERIF_ASAN 1
 #include <sanitizer/asan_interface.h>
